@@ -19,6 +19,7 @@ RULE = ('expression trees of depth 1-6 over + - * / unary minus, parentheses, th
         'builtin whose exact result was compared (or a literal compared with its written value); distinct = distinct source text.')
 RULE += ' One case in nine is preceded by an arbitrary earlier call on the long-lived parser; after every evaluation the decimal context (precision, rounding, Emax, Emin) must be unchanged.'
 RULE += ' One function-call shape in five puts the results of the same builtin (same extra argument, e.g. round(a, -1) / round(b, -1)) on both sides of an operator.'
+RULE += ' min / max over host iterables of nine flavours (list, tuple, list iterator, generator, reversed, map object, deque, dict views) with the extreme value first; one case in nine is preceded by an earlier call from the shared kit, which now includes arithmetic that fails midway.'
 ASSUMPTIONS = ['28 significant digits, round-half-even, applied after every operation including unary minus and abs (the decimal context the language documents)',
                'round(x, n) may refuse a result whose coefficient needs more than 28 digits (quantize); then either the exact value or an error is accepted',
                'division by zero must be an error (class not asserted here)']
@@ -113,6 +114,8 @@ def cases(ctx):
         yield ('src', '1 / 3 * 3')
         for a in SPECIAL:
             yield ('src', a)
+    for _ in range(ctx.scale(600, 10000)):
+        yield ('iter', rnd.getrandbits(48))
     for _ in range(ctx.scale(12000, 200000)):
         r = random.Random(rnd.getrandbits(48))
         if r.random() < 0.12:
@@ -145,7 +148,42 @@ def has_float(v):
     return False
 
 
+def run_iter_case(case, ctx):
+    """min / max over host-supplied iterables of every protocol flavour (list, tuple, one-shot iterators, generators, views, deque): exact extreme"""
+    import collections
+    r = random.Random(case[1])
+    k = r.randint(1, 6)
+    vals = [Decimal(literal(r)) for _ in range(k)]
+    if r.random() < 0.6:
+        # the extreme value first (where a probe that consumes one element would lose it)
+        vals.sort(reverse=r.random() < 0.5)
+    flavour = r.randrange(9)
+    xs = [list(vals), tuple(vals), iter(list(vals)), (v for v in list(vals)), reversed(list(vals)[::-1]), map(lambda v: v, list(vals)), collections.deque(vals),
+          dict.fromkeys(vals).keys(), {i: v for i, v in enumerate(vals)}.values()][flavour]
+    f = r.choice(['min', 'max'])
+    src = r.choice(['%s(xs)', 'xs | %s', '[%s(xs)][0]', '%s(xs) == %s(ys)']).replace('%s', f)
+    names = {'xs': xs, 'ys': list(vals)}
+    try:
+        got = ctx.P.eval(src, names, None, 1000)
+    except Exception as e:
+        ctx.violation('raised %s where the exact result exists' % type(e).__name__, case, detail={'src': src, 'iterable': type(xs).__name__, 'values': [str(v) for v in vals], 'error': str(e)[:100]})
+        return
+    exp = (min if f == 'min' else max)(Fraction(v) for v in vals)
+    ctx.count('compared')
+    ctx.count('extremes_of_host_iterables_compared')
+    ctx.cov('host_iterable_flavours', type(xs).__name__)
+    ctx.nontriv('%s|%d|%s' % (src, flavour, vals))
+    if '==' in src:
+        if got is not True:
+            ctx.violation('comparison disagrees with exact rational order', case, detail={'src': src, 'iterable': type(xs).__name__, 'values': [str(v) for v in vals], 'got': repr(got)})
+        return
+    if has_float(got) or not isinstance(got, (Decimal, int)) or Fraction(got) != exp:
+        ctx.violation('result is not the correctly rounded exact result', case, detail={'src': src, 'iterable': type(xs).__name__, 'values': [str(v) for v in vals], 'got': repr(got), 'expected': str(exp)})
+
+
 def run_case(case, ctx):
+    if case[0] == 'iter':
+        return run_iter_case(case, ctx)
     src = case[1]
     try:
         tree = refparser.ref_parse([(t[0], t[1]) for t in reflex.tokens(src)])
